@@ -263,17 +263,28 @@ def rule_nesting(ck: Check, repo: Repo) -> None:
     ck.analysed_fn(q, f"{GL}.NestedReuseTOML.reuse_info_of", f"{GL}.NestedReuseTOML._find_relevant_tomls_and_items")
     src = squash(ast.unparse(fn))
     filt = "for toml in self.reuse_tomls: if PurePath(path).is_relative_to(toml.directory): found.append(toml)" in src
-    sort_stmt = [i for i, s in enumerate(fn.body) if isinstance(s, ast.Expr) and
-                 ast.unparse(s.value) == "found.sort(key=lambda toml: toml.directory.parts)"]
+    def depth_key(call: ast.Call) -> bool:
+        """key=lambda t: t.directory.parts (or its length): orders by depth of the REUSE.toml's directory."""
+        key = next((kw.value for kw in call.keywords if kw.arg == "key"), None)
+        if not isinstance(key, ast.Lambda) or len(key.args.args) != 1:
+            return False
+        x = key.args.args[0].arg
+        return ast.unparse(key.body) in (f"{x}.directory.parts", f"len({x}.directory.parts)")
+
+    sorts = [(i, s.value) for i, s in enumerate(fn.body) if isinstance(s, ast.Expr) and isinstance(s.value, ast.Call)
+             and ast.unparse(s.value.func) == "found.sort"]
     ret = [i for i, s in enumerate(fn.body) if isinstance(s, ast.Return)]
-    sorted_ret = bool(ret) and ast.unparse(fn.body[ret[0]].value) in (
-        "sorted(found, key=lambda toml: toml.directory.parts)",)
-    r.instance("relevant-tomls", {"filter": filt, "sorted_by_depth": bool(sort_stmt) or sorted_ret})
+    ret_sorted = bool(ret) and isinstance(fn.body[ret[0]].value, ast.Call) and ast.unparse(fn.body[ret[0]].value.func) == "sorted" \
+        and ast.unparse(fn.body[ret[0]].value.args[0]) == "found" and depth_key(fn.body[ret[0]].value)
+    stmt_sorted = any(depth_key(c) and not any(kw.arg == "reverse" for kw in c.keywords) and ret and i < ret[0] for i, c in sorts)
+    keys = [ast.unparse(kw.value) for _, c in sorts for kw in c.keywords if kw.arg == "key"]
+    r.instance("relevant-tomls", {"filter": filt, "sort_keys": keys, "sorted_by_depth": stmt_sorted or ret_sorted})
     if not filt:
         r.violation(q, "ancestor filter", "only REUSE.toml files in ancestor directories of the path are relevant", repo.loc(fn))
-    if not ((sort_stmt and ret and sort_stmt[0] < ret[0]) or sorted_ret):
+    if not (stmt_sorted or ret_sorted):
         r.violation(q, "not sorted from topmost to deepest",
-                    "the walk order (and therefore override/closest semantics) would follow file-system enumeration order",
+                    f"sort keys {keys or 'none'}: the relevant REUSE.toml files must be ordered by the depth of their"
+                    " directory (key = directory.parts); otherwise override/closest follow enumeration or name order",
                     repo.loc(fn))
     # items: every relevant toml, matched against the path relative to its directory, in that order
     q1 = f"{GL}.NestedReuseTOML._find_relevant_tomls_and_items"
